@@ -700,8 +700,9 @@ class _SubtypeDistanceVisitor(TypeVisitor[int | None]):
     def visit_any_type(self, supertype: AnyType) -> int:
         return self.any_distance
 
-    def visit_none_type(self, supertype: NoneType) -> None:
-        return None
+    def visit_none_type(self, supertype: NoneType) -> int | None:
+        # None cannot be subtyped, but it is at distance zero from itself.
+        return 0 if isinstance(self.subtype, NoneType) else None
 
     def visit_instance(self, supertype: Instance) -> int | None:
         """Calculate the distance between two instances.
